@@ -33,11 +33,13 @@ try:
     if rc != 0: res["existing_tests_output"] = o[-1500:]
     shutil.copy(demo, os.path.join(wt, pkg, "zz_seed_demo_test.go"))
     pkgname = open(demo).read()
-    rc, o = sh("go test -count=1 -run 'Demo|Seed|C0|C1|C2|Mutant|M[0-9]' ./%s/" % pkg, cwd=wt, timeout=600)
+    demo_flags = os.environ.get("SEED_TEST_FLAGS", "")
+    if demo_flags: res["demo_flags"] = demo_flags
+    rc, o = sh("go test %s -count=1 -run 'Demo|Seed|C0|C1|C2|Mutant|M[0-9]' ./%s/" % (demo_flags, pkg), cwd=wt, timeout=600)
     res["demo_fails_with_patch"] = (rc != 0)
     res["demo_with_patch_tail"] = o[-600:]
     sh("git apply -R %s" % patch, cwd=wt)
-    rc, o = sh("go test -count=1 -run 'Demo|Seed|C0|C1|C2|Mutant|M[0-9]' ./%s/" % pkg, cwd=wt, timeout=600)
+    rc, o = sh("go test %s -count=1 -run 'Demo|Seed|C0|C1|C2|Mutant|M[0-9]' ./%s/" % (demo_flags, pkg), cwd=wt, timeout=600)
     res["demo_passes_without_patch"] = (rc == 0)
     if rc != 0: res["demo_without_patch_tail"] = o[-600:]
 finally:
